@@ -78,6 +78,11 @@ def observe(case):
     try:
         if impl == "merge_sort":
             mu.MERGE_SORT_CHUNK_SIZE = c
+            if case.get("abandon_first"):
+                # history: another merge over the same kind of inputs was started and abandoned after k rows
+                prior = mu.merge_sort(paths[::-1] if len(paths) > 1 else paths, "score")
+                for _ in range(case["abandon_first"]):
+                    next(prior, None)
             it = mu.merge_sort(paths, "score")
         else:
             readers = [TabularDataReader.from_path(p) for p in paths]
@@ -141,6 +146,10 @@ def plan(inputs, desc, negative):
     yield from (("chunked", 2, oc) for oc in range(1, n + 2) if oc != 2)
 
 
+def n_rows_of(inputs):
+    return sum(len(s) for s in inputs)
+
+
 def explore(inputs, desc, negative, acc):
     nontrivial = negative or M.nontrivial(inputs, desc)
     for fmt in ("tab", "parquet"):
@@ -148,6 +157,14 @@ def explore(inputs, desc, negative, acc):
             case = {"impl": impl, "fmt": fmt, "desc": desc, "inputs": [list(s) for s in inputs], "chunk": c,
                     "out_chunk": oc, "negative": negative}
             cls, out = check_case(case, acc)
+            if impl == "merge_sort" and c == 2 and n_rows_of(inputs) <= 4:
+                # history: the same merge right after another merge was abandoned after 1 / 2 rows
+                for k in (1, 2):
+                    case2 = dict(case, abandon_first=k)
+                    cls2, out2 = check_case(case2, acc)
+                    acc.case(key=(impl, fmt, desc, inputs, c, oc, negative, k), nontrivial=True, cls=cls2,
+                             outcome=stable_hash([cls2, out2]))
+                    acc.count("after_abandoned_merge")
             acc.case(key=(impl, fmt, desc, inputs, c, oc, negative), nontrivial=nontrivial, cls=cls,
                      outcome=stable_hash([cls, out]),
                      sample=dict(case, cls=cls, out_ids=[r[0] for r in out]) if acc.evaluations % 4099 == 11 else None)
